@@ -140,7 +140,12 @@ impl Check for C12 {
                     fixed.extend(now);
                     waiting = later;
                 }
-                Delivery::ConflictAt(j) | Delivery::Inside(j, _) => {
+                // a write keyed strictly inside a multi-event range can never be a legitimate first
+                // write (only the multi-event transaction itself covers the sequences before it), so
+                // it may arrive at any time - also early, when it is buffered and must be answered
+                // once the range has been applied
+                Delivery::Inside(..) => fixed.push(d),
+                Delivery::ConflictAt(j) => {
                     if fixed.iter().any(|f| matches!(f, Delivery::Log(i) if i == j)) {
                         fixed.push(d);
                     } else {
